@@ -90,6 +90,7 @@ def run(idx, rep, tier):
     empty_collection(idx, rep, "R1")
     run_manifest_e2e(idx, rep, "R1")
     member_manifest_e2e(idx, rep, "R1")
+    c18.completed_table(idx, rep, "R6")
     r6(idx, rep)
     rep.stats["exhaustive"] = True
 
@@ -434,7 +435,8 @@ def run_manifest_e2e(idx, rep, rid):
         mdcls = {f"{owner}.{m}" for cn in ("ResultsMetadata", "Metadata") for owner in ("ResultsMetadata", cn) for m in list(idx.cls(cn).methods) + list(idx.cls(cn).properties)}
         it = Interp(idx, types={"self": "ResultsRegistrar", "md": "ResultsMetadata"}, inline_all={"ResultsRegistrar", "Registrar"}, inline=mdcls,
                     handlers=h, unknown_calls="residual")
-        st = K.instance_store(idx, "ResultsMetadata", "md")
+        st = K.instance_store(idx, "ResultsRegistrar")
+        st.update(K.instance_store(idx, "ResultsMetadata", "md"))
         st.update({"md._time": now, "md._uuid": "U", "md.run_home": "RH", "md.named_results_name": "p", "md.named_paths_name": "p", "md.named_file_name": "f",
                    "self.listeners": [Residual("self")], "self.manifest": {"run_home": "RH", "named_paths_name": "p", "named_file_name": "f"},
                    "self.manifest_path": "RUN/manifest.json", "self.results": [Obj("r0")], "r0.by_line": False})
@@ -480,7 +482,8 @@ def member_manifest_e2e(idx, rep, rid):
         mdcls = {f"{cn}.{m}" for cn in mcls for m in list(idx.cls(cn).methods) + list(idx.cls(cn).properties)}
         it = Interp(idx, types={"self": "ResultRegistrar", "md": "ResultMetadata"}, inline_all={"Registrar"}, inline=mdcls | {"ResultRegistrar.metadata_update", "ResultRegistrar.distribute_update"},
                     handlers=h, unknown_calls="residual")
-        st = K.instance_store(idx, "ResultMetadata", "md")
+        st = K.instance_store(idx, "ResultRegistrar")
+        st.update(K.instance_store(idx, "ResultMetadata", "md"))
         st.update({"md._time": now, "md._uuid": "U", "self.listeners": [Residual("self")], "self.manifest": {}, "self.manifest_path": "RUN/one/manifest.json",
                    "self.archive_name": "archive", "self.file_fingerprints": dict(fps), "self.completed": completed, "self.all_expected_files": True,
                    "self.result": Obj("res"), "res.paths_name": "p", "res.run_time": "T", "res.by_line": False, "res.source_mode_preceding": preceding, "res.run_dir": "RUN",
